@@ -30,12 +30,13 @@ Dims == [
   kid   |-> {"ka1", "ka2", "ka3", "kb1", "ku", "none"},
   alg   |-> {"RS256", "PS256", "ES256", "EdDSA", "HS256", "none"},
   edit  |-> {"none", "otherclaims"},
-  flag  |-> {TRUE, FALSE} ]               \* op.Config.RequestObjectSupported
+  flag  |-> {TRUE, FALSE},                \* op.Config.RequestObjectSupported
+  ruri  |-> {"absent", "registered", "unregistered"} ]   \* redirect_uri claim of the object: none / another registered URI of A / a URI nobody registered
 
-Bases == { [iss |-> "A", cid |-> "A", aud |-> "issuer", rtype |-> "code", by |-> "a1", kid |-> "ka1", alg |-> "RS256", edit |-> "none", flag |-> TRUE],
-           [iss |-> "A", cid |-> "A", aud |-> "issuer", rtype |-> "absent", by |-> "a2", kid |-> "ka2", alg |-> "ES256", edit |-> "none", flag |-> TRUE],
+Bases == { [iss |-> "A", cid |-> "A", aud |-> "issuer", rtype |-> "code", by |-> "a1", kid |-> "ka1", alg |-> "RS256", edit |-> "none", flag |-> TRUE, ruri |-> "absent"],
+           [iss |-> "A", cid |-> "A", aud |-> "issuer", rtype |-> "absent", by |-> "a2", kid |-> "ka2", alg |-> "ES256", edit |-> "none", flag |-> TRUE, ruri |-> "absent"],
            \* an object that is perfectly consistent - for ANOTHER client (B) than the one making the request (A)
-           [iss |-> "B", cid |-> "B", aud |-> "issuer", rtype |-> "code", by |-> "b1", kid |-> "kb1", alg |-> "ES256", edit |-> "none", flag |-> TRUE] }
+           [iss |-> "B", cid |-> "B", aud |-> "issuer", rtype |-> "code", by |-> "b1", kid |-> "kb1", alg |-> "ES256", edit |-> "none", flag |-> TRUE, ruri |-> "absent"] }
 Dev1(S) == S \cup UNION {UNION {{[t EXCEPT ![f] = v] : v \in Dims[f]} : f \in DOMAIN Dims} : t \in S}
 
 Groups == {"all"}
@@ -55,17 +56,23 @@ MustOverride(c) == MayOverride(c) /\ c.cid = Outer /\ c.flag
 Accepts(c) == c.cid = Outer /\ c.rtype \in {"absent", "code"} /\ c.iss = c.cid /\ c.aud \in {"issuer", "issuer+x"}
               /\ KeyInfo[c.by].owner = c.iss /\ c.kid = KeyInfo[c.by].kid /\ c.alg \in DefaultAlgs /\ TypeOfAlg(c.alg) = KeyInfo[c.by].type
               /\ c.edit = "none"
-Decide(c) == LET r == IF c.flag /\ Accepts(c) THEN [class |-> "login", src |-> "obj"] ELSE [class |-> "refused", src |-> "none"] IN [P |-> r, L |-> r]
+\* the object's redirect_uri replaces the query's BEFORE the redirect-URI validation of either router
+Decide(c) == LET r == IF c.flag /\ Accepts(c) /\ c.ruri # "unregistered"
+                      THEN [class |-> "login", src |-> "obj", uri |-> IF c.ruri = "registered" THEN "objRegistered" ELSE "query"]
+                      ELSE [class |-> "refused", src |-> "none", uri |-> "none"] IN [P |-> r, L |-> r]
 Outcomes(c) == {Decide(c)}
 
 RulesRouter(r, c, o) ==
   { <<"C14.reqobj.override:" \o r, (o.class = "login" /\ o.src # "query") => MayOverride(c)>>,
     <<"C14.reqobj.whole:" \o r,    (o.class = "login") => o.src \in {"query", "obj"}>>,     \* never a mixture of both sources
-    <<"C14.reqobj.complete:" \o r, MustOverride(c) => (o.class = "login" /\ o.src = "obj")>>,
+    <<"C14.reqobj.complete:" \o r, (MustOverride(c) /\ c.ruri # "unregistered") => (o.class = "login" /\ o.src = "obj")>>,
+    <<"C14.reqobj.override.uri:" \o r, (o.class = "login" /\ o.uri # "query") => MayOverride(c)>>,
+    \* C03: whatever the request (object) contains, the request that is stored - and later answered - names a registered redirect URI
+    <<"C03.reqobj.redirect:" \o r, (o.class = "login") => o.uri # "objUnregistered">>,
     \* C02 names the request-object verifier too: believed only when signed by a key held for the requesting client
     <<"C02.reqobj.key:" \o r, (o.class = "login" /\ o.src # "query") => Signed(c)>>,
     <<"C09.nopanic:" \o r, o.class # "panic">> }
 Rules(c, o) == RulesRouter("P", c, o.P) \cup RulesRouter("L", c, o.L)
 Check(c, o) == {r[1] : r \in {x \in Rules(c, o) : ~x[2]}}
-Conforms(c, o) == o.P.class = Decide(c).P.class /\ o.L.class = Decide(c).L.class /\ o.P.src = Decide(c).P.src /\ o.L.src = Decide(c).L.src
+Conforms(c, o) == \A r \in {"P", "L"} : o[r].class = Decide(c)[r].class /\ o[r].src = Decide(c)[r].src /\ o[r].uri = Decide(c)[r].uri
 =============================================================================
